@@ -361,17 +361,25 @@ func (m *Muxer) Accept() (Tube, error) {
 // readMsg reads a new packet from the underlying MsgConn. It then sets the timeout
 // so that future calls to readMsg will timeout appropriately.
 func (m *Muxer) readMsg() (*frame, error) {
-	_, err := m.underlying.ReadMsg(m.readBuf)
-	if err != nil {
-		return nil, err
-	}
+	for {
+		n, err := m.underlying.ReadMsg(m.readBuf)
+		if err != nil {
+			return nil, err
+		}
 
-	// Set timeout
-	if m.timeout != 0 {
-		m.underlying.SetReadDeadline(time.Now().Add(m.timeout))
+		// Set timeout
+		if m.timeout != 0 {
+			m.underlying.SetReadDeadline(time.Now().Add(m.timeout))
+		}
+		// Only the bytes of this datagram belong to the frame. A frame the
+		// peer got wrong is dropped; it must not stop the other tubes.
+		f, err := fromBytes(m.readBuf[:n])
+		if err != nil {
+			m.log.Debug("dropping malformed frame")
+			continue
+		}
+		return f, nil
 	}
-	return fromBytes(m.readBuf)
-
 }
 
 // sender accepts frames from the Muxer queues and writes them synchronously to
